@@ -1,6 +1,6 @@
 SPECIFICATION Spec
 CONSTANTS NKeys = 3
-          MaxDiffs = 2
-          EmitEvery = 41
+          MaxDiffs = 1
+          EmitEvery = 2
 INVARIANTS FastCorrect BinaryCorrect Emit
 CHECK_DEADLOCK FALSE
